@@ -137,7 +137,7 @@ def _cycles(ctx):
     return "ok"
 
 
-unit("cycles.run-rejects-cycles[bounded]", props=["C07"], functions=[("_run.py", "run"), ("_util/networkx_util.py", "topological_sort"), ("_util/networkx_util.py", "assert_acyclic"),
+unit("cycles.run-rejects-cycles[bounded]", props=["C07", "C04"], functions=[("_run.py", "run"), ("_util/networkx_util.py", "topological_sort"), ("_util/networkx_util.py", "assert_acyclic"),
                                                                         ("_transformations/pruning.py", "prune_plan"), ("_transformations/pruning.py", "_prune_literal_if_trivial")],
      assumptions=["bounded stand-in: cycles <= 3 nodes through dependency / argument edges and through barrier literals (which prune_plan bypasses), see contracts/cycles.py"],
      min_obligations=2, kind="bounded")(_cycles)
